@@ -254,6 +254,14 @@ class C09(Check):
             for dv in (("Level", "HIGH"), ("ns.Level", "HIGH"), ("Id", b"ab"), ("deep.ns.Id", b"cd"), ("Level", "LOW")):
                 for opts in (0, 1):
                     yield dict(base, schema=ens, datum=dv, parsed=parsed, opts=opts)
+        # a union whose only named branch is given BY NAME, under every reader option set
+        byname = {"type": "record", "name": "Holder", "fields": [
+            {"name": "e", "type": {"type": "enum", "name": "E", "symbols": ["A", "B"]}}, {"name": "f", "type": {"type": "fixed", "name": "F", "size": 1}},
+            {"name": "r", "type": {"type": "record", "name": "R", "fields": [{"name": "x", "type": "int"}]}},
+            {"name": "ue", "type": ["null", "E"]}, {"name": "uf", "type": ["F", "string"]}, {"name": "ur", "type": ["null", "R", "int"]}, {"name": "uer", "type": ["E", "R"]}]}
+        for opts in range(len(OPTS)):
+            yield dict(base, schema=byname, datum={"e": "A", "f": b"x", "r": {"x": 1}, "ue": "B", "uf": b"y", "ur": {"x": 2}, "uer": "A"}, opts=opts)
+            yield dict(base, schema=byname, datum={"e": "A", "f": b"x", "r": {"x": 1}, "ue": None, "uf": "s", "ur": 5, "uer": {"x": 3}}, opts=opts, parsed=True)
         # branch positions that need a two-byte index
         big = ["null"] + [{"type": "record", "name": f"R{i}", "fields": [{"name": f"f{i}", "type": "int"}]} for i in range(1, 140)]
         for i in (1, 62, 63, 64, 65, 99, 127, 128, 139):
